@@ -701,12 +701,14 @@ def tlaps_proof():
     """C05 / C03 / C01 / C07, unbounded: TLAPS machine-checks that the representation invariant (len <= Cap,
     keys pairwise different) is inductive for ANY capacity, key universe and slot-sequence length
     (Init => Inv, Inv /\\ [Next]_slots => Inv', hence []Inv), and that every slot-level step refines the
-    ideal set of keys (spec/MapProof.tla) and the ideal key-value map (spec/MapProofKV.tla)."""
+    ideal set of keys (spec/MapProof.tla) and the ideal key-value map (spec/MapProofKV.tla); the loop invariant
+    of retain and its postcondition (spec/MapProofRetain.tla)."""
     d = os.path.join(WORK, "tlaps-%d" % os.getpid())
     shutil.rmtree(d, ignore_errors=True)
     os.makedirs(d)
     out = []
-    for mod in ("MapProof.tla", "MapProofKV.tla"):
+    shutil.copy(os.path.join(SPEC, "MapProofKV.tla"), d)       # (MapProofRetain extends it)
+    for mod in ("MapProof.tla", "MapProofKV.tla", "MapProofRetain.tla"):
         shutil.copy(os.path.join(SPEC, mod), d)
         t0 = time.time()
         p = sh(["timeout", "900", "tlapm", "--threads", "8", "--cleanfp", mod], cwd=d, timeout=1000, check=False)
@@ -889,7 +891,7 @@ def main():
             os.makedirs(WORK, exist_ok=True)
             build_all(["debug", "release", "asan"])
             for f in sorted(os.listdir(SPEC)):
-                if f in ("MapProof.tla", "MapProofKV.tla"):      # TLAPS proof modules: parsed and checked by tlapm inside the C05 / C03 checks
+                if f in ("MapProof.tla", "MapProofKV.tla", "MapProofRetain.tla"):      # TLAPS proof modules: parsed and checked by tlapm inside the C05 / C03 checks
                     continue
                 if f in ("MapInd.tla", "MapDisj.tla", "MapRef.tla"):      # typed for Apalache (EXTENDS Apalache): checked by its own type checker
                     p = sh(["timeout", "300", "apalache-mc", "typecheck", f], cwd=SPEC, timeout=400, check=False)
